@@ -222,7 +222,24 @@ def build(run):
                     if lt[(id(a), id(b))] and lt[(id(b), id(c))] and not lt[(id(a), id(c))]:
                         return violated(f"not transitive: {a} < {b} < {c} but not {a} < {c}",
                                         replay={"a": str(a), "b": str(b), "c": str(c)}, reproduced=True)
-        return proved("exhaustive-finite-domain", vcs=n, sample=f"strict total order over {len(reps)} distinct cells (all pairs, all triples)")
+        # the other comparison operators, wherever they give an answer, are the same order: a > b iff b < a, a <= b iff not b < a, a >= b iff not a < b
+        import operator
+        for a in cells:
+            for b in cells:
+                base_lt, base_gt = a < b, b < a
+                for opname, op, want in (("__gt__", operator.gt, base_gt), ("__le__", operator.le, not base_gt), ("__ge__", operator.ge, not base_lt)):
+                    try:
+                        got = op(a, b)
+                    except TypeError:
+                        continue           # operator not defined for cells
+                    n += 1
+                    if bool(got) != want:
+                        return violated(f"the comparison operators disagree about one order: ({a} {opname} {b}) is {got} but ({a} < {b}) is {base_lt} and ({b} < {a}) is {base_gt}"
+                                        f" (a == b: {a == b})", replay={"a": repr(a), "b": repr(b), "operator": opname}, reproduced=True)
+        srt = sorted(reps)
+        if any(not (srt[k_] < srt[k_ + 1]) for k_ in range(len(srt) - 1)) or sorted(reversed(reps)) != srt or sorted(reps, reverse=True) != srt[::-1]:
+            return violated("sorted() of the cells is not the strictly increasing chain of the order", reproduced=True)
+        return proved("exhaustive-finite-domain", vcs=n, sample=f"strict total order over {len(reps)} distinct cells (all pairs, all triples); >, <=, >= agree with < where defined")
     run.add("cell_order/strict_total", order_thunk, kind="proof")
 
     def ctor_thunk():
